@@ -53,8 +53,8 @@ func serializerState(c *Ctx) {
 	o := newOrigins(c.P)
 	driverStateRule(c, "driver-keeps-no-state", []string{cdxSer, spdxSer, "beta.(*SPDX3).Serialize", "serializers.(*CDX).Render", "serializers.(*SPDX23).Render", "beta.(*SPDX3).Render"}, o)
 	nondetRule(c, serializerEntries, map[string]string{
-		"serializers.(*SPDX23).Serialize→time.Now": "creation timestamp of the SPDX document (excluded by the statement)",
-		"beta.(*SPDX3).Serialize→time.Now":         "creation timestamp of the SPDX 3 document (excluded by the statement)",
+		"serializers.(*SPDX23).Serialize→time.Now@Created": "creation timestamp of the SPDX document (excluded by the statement)",
+		"beta.(*SPDX3).Serialize→time.Now":                 "creation timestamp of the SPDX 3 document (excluded by the statement)",
 	})
 }
 
